@@ -63,7 +63,8 @@ def gen_cases(rng: Rng, tier):
         sc = pow2(rng)  # data in small / large units: any scale
         X = [[x * sc for x in r] for r in X]
         size = m if method == "cov" else n
-        case = dict(kind=method, t=Svec(t), X=Smat(X), sel=rng.choice(_sels(rng, size)), ck=ck, scale=rs(sc))
+        case = dict(kind=method, t=Svec(t), X=Smat(X), sel=rng.choice(_sels(rng, size)), ck=ck, scale=rs(sc),
+                    layout=rng.choice(["C", "C", "F", "S"]))
         if k % 3 == 0:
             # history: the same estimator is fitted again on other data (other size, other grid, other kind)
             nB, mB = rng.randint(2, 9), rng.randint(3, 12)
@@ -71,6 +72,34 @@ def gen_cases(rng: Rng, tier):
             XB, _ = curves(rng, nB, tB, rng.choice(["rough", "lowrank", "smooth"]))
             case["B"] = dict(t=Svec(tB), X=Smat(XB))
         yield case
+    # amplitude sweep (every run): data × 2^e, e = ±30, ±20 (≈ 1e-9 … 1e9), both routes
+    for i, e in enumerate([-30, -30, 30, 30, -20, -20]):
+        method = ["cov", "gram"][i % 2]
+        n, m = rng.randint(3, 7), rng.randint(4, 9)
+        t = grid(rng, m)
+        X, ck = curves(rng, n, t, "smooth" if method == "gram" else "rough")
+        sc = Fraction(2) ** e
+        yield dict(kind=method, t=Svec(t), X=Smat([[x * sc for x in r] for r in X]), sel=rng.choice([["all"], ["int", 2]]),
+                   ck=f"amplitude-2^{e}", scale=rs(sc))
+    # sizes around fast-path thresholds (200, 250, 256): many grid points (covariance route) / many curves
+    # (Gram route), the other dimension tiny, a few integer components
+    for i, size in enumerate([201, 251, 257, 300, 513] if big else [rng.choice([201, 257]), 251]):
+        if i % 2 == 0:
+            t = grid(rng, size)
+            X, ck = curves(rng, rng.randint(3, 4), t, "rough")
+            yield dict(kind="cov", t=Svec(t), X=Smat(X), sel=["int", rng.randint(1, 2)], ck="large-m", scale="1")
+        else:
+            t = grid(rng, 3)
+            X, ck = curves(rng, size, t, "rough")
+            yield dict(kind="gram", t=Svec(t), X=Smat(X), sel=["int", rng.randint(1, 3)], ck="large-n", scale="1")
+    # Gram route with a smoothed mean (method_smoothing="PS"/"LP" passed to fit): the curves are centred a second
+    # time inside inner_product; eigenfunctions must come from the curves whose Gram matrix was decomposed
+    for i in range(24 if big else 5):
+        n, m = rng.randint(4, 9), rng.randint(8, 14)
+        t = grid(rng, m, uniform=bool(i % 2))
+        X, ck = curves(rng, n, t, rng.choice(["rough", "rough", "offset"]))
+        yield dict(kind="gram", t=Svec(t), X=Smat(X), sel=rng.choice([["int", 1], ["int", 2], ["all"]]), ck=ck + "-smoothed-mean",
+                   scale="1", smooth=["PS", "LP"][i % 2 if big else (0 if i < 4 else 1)])
     # Gram route with numbers of observations around typical block sizes (cheap: few grid points)
     for n in ([16, 17, 31, 32, 33, 63, 64, 65, 96, 97] if big else [17, 32, 33, 64, 65]):
         m = rng.choice([3, 4])
@@ -102,13 +131,16 @@ def witness_cases():
 # implementation side
 # --------------------------------------------------------------------------
 
-def _fit_stage(est, kind, t, X):
+def _fit_stage(est, kind, t, X, layout="C", smooth=None):
     """Fit `est` on (t, X) under capture and read every observable of the property."""
-    fd = dense([t], X)
+    fd = dense([t], X, layout)
     out = {}
     with quiet(), EigCapture() as cap:
         try:
-            est.fit(fd)
+            if smooth:
+                est.fit(fd, method_smoothing=smooth)
+            else:
+                est.fit(fd)
         except Exception as e:  # noqa: BLE001
             return dict(error=err_class(e), msg=str(e)[:200])
     size = len(t) if kind == "cov" else len(X)
@@ -137,7 +169,9 @@ def run_impl(case):
     method = "covariance" if case["kind"] == "cov" else "inner-product"
     mk = lambda: UFPCA(method=method, n_components=sel_to_py(case["sel"]), normalize=False)  # noqa: E731
     est = mk()
-    out = _fit_stage(est, case["kind"], Fv(case["t"]), np.array(fl(Fm(case["X"]))))
+    out = _fit_stage(est, case["kind"], Fv(case["t"]), np.array(fl(Fm(case["X"]))), case.get("layout", "C"), case.get("smooth"))
+    if case.get("smooth") and "error" not in out:
+        out["train"] = np.asarray(est._training_data.values, dtype=float).tolist()
     if "B" in case and "error" not in out:
         tB, XB = Fv(case["B"]["t"]), np.array(fl(Fm(case["B"]["X"])))
         out["B"] = _fit_stage(est, case["kind"], tB, XB)            # the SAME object, second fit
@@ -165,6 +199,8 @@ def _stages(case, impl):
 def _stage_line(case, t, X, st):
     if "error" in st or "raw_vals" not in st:
         return None
+    if len(st["raw_vals"]) > 64 or case.get("smooth"):
+        return None  # large sizes / smoothed means (smoothers are C05/C06's subject): oracle only
     J = ",".join
     M = lambda m: ";".join(",".join(r) for r in m)  # noqa: E731
     cols = ";".join(_ratvec(c) for c in st["raw_vecs"])
@@ -378,8 +414,14 @@ def _oracle_stage(case, entry, label, ts, Xs, impl):
         sig = impl["noise"]
         V = np.array(impl["V"], dtype=float).reshape(n, K)
         G = (Xc * w) @ Xc.T                                   # own Gram matrix of the centred curves
+        smoothed = bool(case.get("smooth")) and "solver_in" in impl
+        if smoothed:
+            # the mean was smoothed (not reproducible independently): the curves are whatever the matrix handed to
+            # the solver is the Gram matrix of; every relation below is stated through that matrix
+            G = np.array(impl["solver_in"], dtype=float) + sig * np.eye(n)
+            G = (G + G.T) / 2
         gsc = max(np.abs(G).max(), abs(sig), 1e-300)
-        if np.abs(np.array(impl["gram0"]) - G).max() > 1e-9 * gsc:
+        if not smoothed and np.abs(np.array(impl["gram0"]) - G).max() > 1e-9 * gsc:
             i, j = np.unravel_index(np.abs(np.array(impl["gram0"]) - G).argmax(), G.shape)
             bad("gram_matrix", f"inner_product(noise_variance=0)[{i},{j}] = {impl['gram0'][i][j]!r}, Gram matrix of the centred curves: {G[i, j]!r} (n_obs = {n})")
         lprime = vals * n
@@ -409,6 +451,15 @@ def _oracle_stage(case, entry, label, ts, Xs, impl):
                     break
             if done:
                 break
+        if smoothed:
+            # consistency of the two code paths: <phi_k, phi_l>_w must be v_kᵀ G v_l / √(l_k l_l) for the decomposed G
+            for i, a in enumerate(good):
+                for b in good[i:]:
+                    want = V[:, a] @ (G @ V[:, b]) / np.sqrt(lprime[a] * lprime[b])
+                    if abs(Gm[a, b] - want) > 1e-7 * max(np.sqrt(abs(Gm[a, a] * Gm[b, b])), abs(want), 1.0):
+                        bad("gram_consistent", f"<phi_{a},phi_{b}>_w = {Gm[a, b]!r} but the Gram matrix that was decomposed gives {want!r}: the eigenfunctions are not built from the curves whose Gram matrix was decomposed (mean smoothed with {case['smooth']})")
+                        return vs
+            return vs
         for k in good:
             comb = Xc.T @ V[:, k] / np.sqrt(lprime[k])
             if np.abs(comb - Phi[k]).max() > 1e-8 * max(np.abs(comb).max(), 1e-300):
